@@ -181,6 +181,19 @@ def denoted (d : GffDoc) (y : Got) : Bool :=
         && sameMap f.attrs g.f.attrs
         && coordOk d.seq f.first f.last g) d.feats y.feats
 
+/-- Build's text up to the position of the newlines inside the sequence: the lines through the
+FASTA definition line, then the sequence letters (`Props/C14.parse_buildWith` holds for every
+line-break rule, so only this much of the text matters for the property) -/
+def canonText (t : String) : String :=
+  let ls := split '\n' t.toList
+  let pre := ls.takeWhile (· != sFasta)
+  let post := ls.dropWhile (· != sFasta)
+  String.ofList (joinSep '\n' (pre ++ post.take 2) ++ '\n' :: (post.drop 2).flatten)
+
+def canonReply : List String → List String
+  | st :: text :: rest => st :: canonText text :: rest
+  | o => o
+
 def render (c : List String) : List String :=
   match c with
   | "build" :: r => "gff_roundtrip" :: r
@@ -211,10 +224,12 @@ def judge (c out : List String) : Verdict :=
       let triv := x.features.isEmpty && x.seq.length < 70
       let reCls := if x.regionEnd == (x.seq.length : Int) then "re=len" else if x.regionEnd == 0 then "re=0"
                    else if x.regionEnd % 70 == 0 then "re=70k" else "re=other"
-      { corr := out == m, judge := if inDom then some j else none,
+      let same := canonReply out == canonReply m
+      { corr := same, judge := if inDom then some j else none,
         cls := (if triv then "triv:" else "") ++ "build/" ++ lenClass x.seq.length ++ "/" ++ reCls
-               ++ (if x.features.any (fun f => f.attrs.isEmpty) then "/noattr" else ""),
-        detail := if out == m && (j || !inDom) then "" else lineOf (m.drop 2) }
+               ++ (if x.features.any (fun f => f.attrs.isEmpty) then "/noattr" else "")
+               ++ (if same && out != m then "/other-wrap" else ""),
+        detail := if same && (j || !inDom) then "" else lineOf (m.drop 2) }
   | "layout" :: r =>
     match decodeLayout r with
     | none => { corr := false, judge := none, cls := "bad-case", detail := "bad case" }
